@@ -229,8 +229,21 @@ class Gen:
                 rows.append(r)
         # mpl::vector holds 20 rows (BOOST_MPL_LIMIT_VECTOR_SIZE): drop rows from the end - the ones appended last use the
         # pseudo states of submachines and are not needed to make a state of this machine known to the library
-        while len(rows) > 20:
-            rows.pop()
+        def mentions(r):
+            out = {r["src"]}
+            t = r["tgt"]
+            if t != "none":
+                out.add(t[1])
+            return out
+        k = len(rows) - 1
+        while len(rows) > 20 and k >= 0:
+            others = set(inits)
+            for j, r in enumerate(rows):
+                if j != k:
+                    others |= mentions(r)
+            if mentions(rows[k]) <= others:
+                rows.pop(k)         # no state of this machine becomes unknown to the library
+            k -= 1
         m = machine(states, inits, rows, irows, hist)
         if f["pseudo"] and depth > 0:
             m["_pseudo"] = pseudo
